@@ -131,3 +131,91 @@ def close_ctx(ctx) -> None:
         ctx.db_conn.close()
     except Exception:
         pass
+
+
+# ---------------------------------------------------------------------------
+# benign smoke modules: what ordinary wiki modules do must keep working (used by the
+# Lua checks to make sure a proposed fix / a mutant did not simply break the sandbox)
+# ---------------------------------------------------------------------------
+SMOKE_MODULES = {
+    "smokelib": "local m = {} function m.double(x) return 2 * x end return m",
+    "smokedata": "return { x = 'dx', list = { 'a', 'b', 'c' } }",
+    "smoke": r"""
+local p = {}
+local lib = require("Module:smokelib")
+function p.text(frame)
+  return mw.text.trim("  a b  ") .. "|" .. table.concat(mw.text.split("x,y,z", ","), "+") .. "|" .. mw.text.nowiki("[x]")
+end
+function p.title(frame)
+  local t = mw.title.getCurrentTitle()
+  local n = mw.title.new("Foo bar", "Template")
+  return t.text .. "|" .. t.namespace .. "|" .. n.prefixedText .. "|" .. tostring(n.exists)
+end
+function p.args(frame)
+  local pf = frame:getParent()
+  return (frame.args[1] or "nil") .. "|" .. (frame.args.k or "nil") .. "|" .. (pf and pf.args[1] or "nil") .. "|" .. (pf and pf.args.pk or "nil") .. "|" .. frame:getTitle()
+end
+function p.req(frame) return tostring(lib.double(21)) .. "|" .. tostring(require("Module:smokelib") == lib) end
+function p.data(frame)
+  local d = mw.loadData("Module:smokedata")
+  return d.x .. "|" .. #d.list .. "|" .. d.list[2]
+end
+function p.pre(frame)
+  return frame:preprocess("{{smoketpl|z}}") .. "|" .. frame:expandTemplate{ title = "smoketpl", args = { "q" } } .. "|" .. frame:callParserFunction("#if", "1", "yes", "no")
+end
+function p.prot(frame)
+  local ok, e = pcall(error, "boom")
+  local ok2, e2 = xpcall(function() error("bang", 0) end, function(m) return "H:" .. m end)
+  local ok3, v = pcall(function(a, b) return a + b end, 2, 3)
+  return tostring(ok) .. "|" .. tostring(e) .. "|" .. tostring(ok2) .. "|" .. tostring(e2) .. "|" .. tostring(ok3) .. tostring(v) .. "|" .. select("#", pcall(function() return nil, nil end))
+end
+function p.co(frame)
+  local ok, co = pcall(require, "coroutine")
+  if not ok then return "no coroutine library" end
+  local f = co.wrap(function(a) local b = co.yield(a + 1) co.yield(b * 2) return "done" end)
+  local c = co.create(function() error("inner") end)
+  local rok, rerr = co.resume(c)
+  return f(1) .. "|" .. f(10) .. "|" .. f() .. "|" .. tostring(rok) .. "|" .. co.status(c)
+end
+function p.str(frame) return ("abc"):upper() .. "|" .. string.format("%03d", 7) .. "|" .. mw.ustring.len("xyz") .. "|" .. type(os.time()) .. "|" .. tostring(math.floor(2.5)) end
+function p.json(frame)
+  local t = mw.text.jsonDecode('{"a": [1, 2, {"b": "c"}]}')
+  return t.a[3].b .. "|" .. mw.text.jsonEncode({ 1, 2 })
+end
+function p.inv(frame) return "<" .. frame:preprocess("{{#invoke:smoke|str}}") .. ">" end
+function p.err(frame) error("deliberate") end
+function p.glob(frame) leaked_global = (leaked_global or 0) + 1 return tostring(leaked_global) end
+return p
+""",
+}
+SMOKE_TEMPLATES = {
+    "smoketpl": "T({{{1|}}})",
+    "smokecall": "{{#invoke:smoke|args|ia|k=iv}}",
+}
+SMOKE_CASES = [
+    ("{{#invoke:smoke|text}}", "a b|x+y+z|&lsqb;x&rsqb;"),
+    ("{{#invoke:smoke|title}}", "Tt|0|Template:Foo bar|false"),
+    ("{{#invoke:smoke|args|A|k= v }}", "A|v|nil|nil|Module:smoke"),
+    ("{{smokecall|pa|pk=pv}}", "ia|iv|pa|pv|Module:smoke"),
+    ("{{#invoke:smoke|req}}", "42|true"),
+    ("{{#invoke:smoke|data}}", "dx|3|b"),
+    ("{{#invoke:smoke|pre}}", "T(z)|T(q)|yes"),
+    ("{{#invoke:smoke|prot}}", "false|boom|false|H:bang|true5|3"),
+    ("{{#invoke:smoke|co}}", "2|20|done|false|dead"),
+    ("{{#invoke:smoke|str}}", "ABC|007|3|number|2"),
+    ("{{#invoke:smoke|json}}", "c|[1, 2]"),
+    ("{{#invoke:smoke|inv}}", "<ABC|007|3|number|2>"),
+    ("{{#invoke:smoke|err}}", '<strong class="error">Lua execution error in Module:smoke function err</strong>'),
+    ("{{#invoke:smoke|glob}}{{#invoke:smoke|glob}}", "11"),
+]
+
+
+def coverage_actions(out: str) -> dict:
+    """Per-action total counts of a `-coverage` TLC run (also actions whose location is
+    printed with a sub-range suffix)."""
+    import re
+
+    res = {}
+    for m in re.finditer(r"<(\w+) line \d+, col \d+ to line \d+, col \d+ of module \w+(?: \([\d ]+\))?>: (\d+):(\d+)", out):
+        res[m.group(1)] = int(m.group(3))
+    return res
